@@ -58,6 +58,10 @@ CLAIMED = {
          'For all sequences and any item comparison, A op B holds iff some pair satisfies it; for all item sequences the effective boolean value is the F&O one (error exactly for the undefined shapes); and/or/not laws. The value-comparison type table is a finite statement proved for all 1944 cells (C07_type_table_partial) with the 40 deviating cells listed (known finding); ordering inside each type is delegated to C06/C09/C11. Double eq tolerance is a known finding (observed, not modelled).',
          'Trusted: Coq kernel; vc_spec as transcription of the F&O operator mapping; representative values per type; harness table of untypedAtomic conversions. No axioms.',
          'DESIGN.md §6 C07'),
+ 'C05': ('Coq refinement proof: the store-passing model of the implementation (shared mutable variables dict behind shallow context copies, one dict copy per for/let/some/every, iter_product and update() writing loop variables in place) computes the lexically scoped semantics for every expression of the binding calculus and leaves every pre-existing dictionary unchanged; correspondence on generated programs through select / iter_select / Selector / token; histories over documents, variable maps and timezones with snapshots',
+         'For all expressions of the calculus (literals, variables, sequence, +, one- and two-variable for, one- and two-variable let, some, every; any nesting and shadowing) accepted by the parser range-variable check, all heaps and caller dictionaries: value = lexical-scope value, caller dictionaries unchanged, same result after any earlier evaluations. PARTIAL for "any expression": purity and repeatability of the remaining functions / operators, of token caches, of the tree and of mutable atomic values are observed on histories over a fixed pool (timezone write-through was found there and fixed in /repo), not proved. Generator laziness is not modelled (eager model).',
+         'Trusted: Coq kernel; hand model C05/Model.v impl (tied by correspondence); harness rendering of programs; snapshots by repr/slots. No axioms.',
+         'DESIGN.md §6 C05'),
 }
 
 NOT_YET = {}
